@@ -93,7 +93,7 @@ func setupNS() (int, error) {
 		args = []string{"netns", "exec", mainNS, "sh", "-c", sh}
 	}
 	cmd := exec.Command("ip", args...)
-	cmd.Env = append(os.Environ(), "VERIF_NS_MAIN="+mainNS, "VERIF_NS_PEER="+peerNS)
+	cmd.Env = append(os.Environ(), "VERIF_NS_MAIN="+mainNS, "VERIF_NS_PEER="+peerNS, fmt.Sprintf("VERIF_OUTER_PID=%d", pid))
 	cmd.Stdout, cmd.Stderr, cmd.Stdin = os.Stdout, os.Stderr, nil
 	err := cmd.Run()
 	if err == nil {
